@@ -27,10 +27,12 @@ CONFIG = dict(
     mode="accept",
     reset_prefix="reset",
     runs={
-        "quick": [dict(name="main", env={"VERIF_N": "4000"}, timeout=90)],
+        "quick": [dict(name="main", env={"VERIF_N": "4000"}, timeout=90),
+                  dict(name="svc", test="TestSvc", env={"VERIF_N": "200"}, timeout=90)],
         "thorough": [dict(name="main", env={"VERIF_N": "60000"}, timeout=800),
                      dict(name="seed2", env={"VERIF_N": "30000"}, seed_offset=1000, procs=2, timeout=800),
-                     dict(name="seed3", env={"VERIF_N": "30000"}, seed_offset=2000, procs=3, timeout=800)],
+                     dict(name="seed3", env={"VERIF_N": "30000"}, seed_offset=2000, procs=3, timeout=800),
+                     dict(name="svc", test="TestSvc", env={"VERIF_N": "4000"}, timeout=800)],
     },
     trivial=r"^(ok|empty|bad-op|q=\d+|id=\d+ q=\d+|now=\d+ q=0|ev= q=0 loop=1)?$",
     rule="cases generated from one PRNG (VERIF_SEED): each case = reset, 5 callback scripts (cancel self / cancel other id / cancel newest / "
@@ -39,7 +41,11 @@ CONFIG = dict(
          "30% structured scenarios (cancel while the expiry is queued; cancel inside the own callback; two simultaneous expiries cancelling each other; "
          "panicking repeating timer; boundary duration-1 / duration; many ties; cancel after firing / twice / before creation; late drain of a repeating "
          "timer; Stop), 20% of the cases on a real StandardRunService (ops posted to its loop; every callback must run on the loop goroutine), one "
-         "queue-overflow case (1005 timers > channel capacity 999), one malformed stream; corpus first. A case is non-trivial when the observation "
+         "queue-overflow case (1005 timers > channel capacity 999), one malformed stream; corpus first. Run `svc`: a real actorex/service.Service "
+         "(actor + ScheDisp run service) issues requests to a recording peer, gets them answered or lets them time out, idles across several virtual "
+         "seconds and gets busy again; observed per step: callback log of every timer object of the service's manager, ids held in Mgr.timers, "
+         "Service.timerCheckExpired, request-table size (spec: a check timer the service gave up never fires again and is gone from the manager; "
+         "at most the one owned timer is alive). A case is non-trivial when the observation "
          "contains a callback log or a non-empty queue; distinct = distinct (op, observation) pairs",
     trusted_base=[
         "Lean 4.33.0 kernel; axioms of every property theorem audited on each run (allowed: propext, Classical.choice, Quot.sound)",
